@@ -1,6 +1,6 @@
 (* C07 — laws of the reference evaluator S about exits travelling through arbitrary nestings, proved by
    induction on the nesting: an exit (return-from / go / error) raised in the hole of a context E made of
-   any number of frames, none of which is its target or a handler, comes out of E unchanged, and on the
+   any number of frames (16 kinds), none of which is its target or a handler, comes out of E unchanged, and on the
    way exactly the cleanups of E run, innermost first (unwind-protect cleanup forms, mutex releases, stream
    closes), nothing else.  Corollaries: return-from reaches the lexically matching block and no other and
    yields the value; go reaches the matching tag; an unhandled error keeps its class. *)
@@ -26,7 +26,9 @@ Inductive frame :=
 | FLam (pre : list N) (post : list form)
 | FTagbody (pre : list N) (post : list item)              (* (tagbody pre.. [] post..) *)
 | FLoop (k : loopkind) (n : nat) (pre : list N) (post : list item) (res : form)   (* n+1 iterations, the first one *)
-| FDo (n : nat) (pre : list N) (post : list item) (res : list form).
+| FDo (n : nat) (pre : list N) (post : list item) (res : list form)
+| FUnless (pre : list N) (post : list form)               (* (unless nil pre.. [] post..) *)
+| FIf (b : form).                                         (* (if t [] b) *)
 
 Definition plug1 (F : frame) (x : form) : form :=
   match F with
@@ -44,6 +46,8 @@ Definition plug1 (F : frame) (x : form) : form :=
   | FTagbody pre post => Tagbody (tri pre ++ IForm x :: post)
   | FLoop k n pre post res => Loop k (S n) (tri pre ++ IForm x :: post) res
   | FDo n pre post res => Do (S n) (tri pre ++ IForm x :: post) res
+  | FUnless pre post => Unless (Const LNil) (trs pre ++ x :: post)
+  | FIf b => If (Const LT) x b
   end.
 (* a context: frames from the outermost to the innermost *)
 Fixpoint plug (E : list frame) (x : form) : form :=
@@ -66,7 +70,8 @@ Fixpoint logtrs (ks : list N) (st : state) : state :=
 Definition enter1 (F : frame) (st : state) : state :=
   match F with
   | FProgn pre _ | FWhen pre _ | FLet pre _ | FArg pre _ | FBlock _ pre _ | FIgnore pre _ | FRecover _ pre _
-  | FLam pre _ | FTagbody pre _ | FLoop _ _ pre _ _ | FDo _ pre _ _ => logtrs pre st
+  | FLam pre _ | FTagbody pre _ | FLoop _ _ pre _ _ | FDo _ pre _ _ | FUnless pre _ => logtrs pre st
+  | FIf _ => st
   | FUnwind u _ => log (EEnter u) st
   | FMutex m pre _ => logtrs pre (lock m st)
   | FFile f pre _ => logtrs pre (fopen f st)
@@ -215,6 +220,10 @@ Proof.
     + destruct o; try contradiction; cbn [catch]; try reflexivity.
       cbn [transp1] in T. apply negb_true_iff in T. rewrite T. reflexivity.
     + intros t ->. cbn [transp1] in T. apply negb_true_iff in T. exact T.
+  - (* unless *) assert (TC : seval defs n bl tg (Const LNil) st = (Normal VNil, st)) by (destruct n; [cbn in H; inv H; contradiction | reflexivity]).
+    rewrite TC. cbn [is_nil]. apply s_seq_trs; auto.
+  - (* if *) assert (TC : seval defs n bl tg (Const LT) st = (Normal VT, st)) by (destruct n; [cbn in H; inv H; contradiction | reflexivity]).
+    rewrite TC. cbn [is_nil]. exact H.
 Qed.
 
 (* ---- any depth ----------------------------------------------------------------------------------- *)
